@@ -41,8 +41,8 @@ SUNMatrix SUNDenseMatrix(sunindextype M, sunindextype N, SUNContext) {
     SUNMatrix A = new _shim_SUNMatrix; A->sparse = 0; A->M = M; A->N = N; A->NNZ = M * N;
     A->data = new realtype[M * N > 0 ? M * N : 1](); A->indexptrs = NULL; A->indexvals = NULL; return A;
 }
-SUNMatrix SUNSparseMatrix(sunindextype M, sunindextype N, sunindextype NNZ, int, SUNContext) {
-    SUNMatrix A = new _shim_SUNMatrix; A->sparse = 1; A->M = M; A->N = N; A->NNZ = NNZ;
+SUNMatrix SUNSparseMatrix(sunindextype M, sunindextype N, sunindextype NNZ, int sparsetype, SUNContext) {
+    SUNMatrix A = new _shim_SUNMatrix; A->sparse = 1; A->sparsetype = sparsetype; A->M = M; A->N = N; A->NNZ = NNZ;
     // exactly NNZ / M+1 long: heap allocations of size 0 are legal and any access is caught by ASan
     A->data = new realtype[NNZ](); A->indexptrs = new sunindextype[M + 1](); A->indexvals = new sunindextype[NNZ]();
     return A;
@@ -133,6 +133,12 @@ static void shim_fill_jacobian(ShimCV *m, N_Vector y) {
     m->jac(m->t, y, NULL, m->A, m->udata, NULL, NULL, NULL);
     if (!m->A->sparse) return;
     SUNMatrix A = m->A;
+    // the generated Jac() fills the index arrays row by row (rowptrs / colvals): a matrix created column-compressed would be read by
+    // the linear solver as the transpose of what was written
+    if (A->sparsetype != CSR_MAT) {
+        fprintf(stderr, "shim: Jac() fills a row-compressed structure, but the matrix attached to the integrator was created with sparsetype %d (CSC): the solver reads the transpose\n", A->sparsetype);
+        exit(6);
+    }
     const char *bad = NULL;
     if (A->indexptrs[0] != 0) bad = "row pointers do not start at 0";
     for (sunindextype r = 0; r < A->M && !bad; r++) {
